@@ -7,6 +7,7 @@ import Proofs.Slice
 import Proofs.SliceTuple
 import Proofs.Hyperslab
 import Proofs.SliceSrc
+import Proofs.SliceAudit
 namespace Pydap.C03
 open Pydap
 
@@ -130,6 +131,86 @@ theorem C03_hyperslab_empty_excluded :
     intro s hs; simp at hs; subst hs
     exact ⟨0, MAXSIZE, 1, rfl, by decide, by decide, by decide⟩)
 
+/-! ### the composed statements (theorem audit, round 7)
+
+The theorems above are the pieces; the three below are the property's three clauses, each as ONE statement over the
+function pydap calls (`fix_slice` on a whole tuple, `combine_slices` on two tuples, `hyperslab` ∘ `fix_slice`).
+`entrySel N e` = what entry `e` selects on an axis of length `N` (numpy: a valid integer → its position, a slice →
+`sel`); `tupleDom shape l` = every entry of the expanded tuple lies in the property's domain for its axis. -/
+
+/-- **Clause 1, whole tuples.**  For every shape and every basic index — with or without one Ellipsis, shorter than
+    the rank or not — whose entries lie in the domain (`-N ≤ i < N`; slice bounds `≥ -N`, unbounded upwards; steps
+    `≥ 1` or absent), `fix_slice` returns one entry per axis and on EVERY axis the normalised entry selects exactly
+    what numpy's expansion of the index selects there. -/
+theorem C03_fix_tuple_preserves (idx : List Idx) (shape : List Nat) (l : List Idx)
+    (hexp : (NoEll idx ∧ idx.length ≤ shape.length ∧ l = npExpand idx none shape.length) ∨
+      (∃ pre post, idx = pre ++ Idx.ell :: post ∧ NoEll pre ∧ NoEll post ∧
+        pre.length + post.length ≤ shape.length ∧ l = npExpand pre (some post) shape.length))
+    (hdom : tupleDom shape l = true) :
+    (fixSlice idx shape).length = shape.length ∧
+    List.zipWith entrySel shape (fixSlice idx shape) = List.zipWith entrySel shape l := by
+  have hfix : fixSlice idx shape = zipFix l shape := by
+    rcases hexp with ⟨h, hl, rfl⟩ | ⟨pre, post, rfl, h1, h2, hl, rfl⟩
+    · exact fixSlice_noEll idx shape h hl
+    · exact fixSlice_ell pre post shape h1 h2 hl
+  rw [hfix]
+  exact ⟨zipFix_length l shape (tupleDom_length shape l hdom), zipFix_preserves shape l hdom⟩
+
+/-- the domain restriction of clause 1 is necessary (and is the property's: bounds in `[-N, N+3]`): a start below
+    `-N` is shifted once by `fix_slice` and stays negative, which numpy reads as counted from the end again -/
+theorem C03_fix_domain_necessary :
+    ¬ ∀ (N : Nat) (s : PSlice), (∀ k, s.step = some k → 1 ≤ k) → sel N (fixSl N s) = sel N s := by
+  intro h
+  have := h 3 ⟨some (-5), none, none⟩ (by intro k hk; cases hk)
+  revert this
+  decide
+
+/-- **Clause 2, whole tuples.**  `combine_slices(slice1, slice2)` has as many entries as the longer tuple, and on
+    every axis `i` and for every axis length `N` the combined entry selects exactly element `j` of what entry `i` of
+    `slice1` selects, for each `j` that entry `i` of `slice2` selects from it — any strides in either tuple, an
+    integer entry read as `slice(i, i+1)` (pydap keeps the axis), a missing entry as `slice(None)`. -/
+theorem C03_combine_tuple (l1 l2 : List Idx)
+    (h1 : ∀ e ∈ l1, NonNegSl (toSlice e)) (h2 : ∀ e ∈ l2, NonNegSl (toSlice e)) :
+    (combine l1 l2).length = max l1.length l2.length ∧
+    ∀ (i : Nat) (N : Nat), i < max l1.length l2.length →
+      ∃ c, (combine l1 l2)[i]? = some c ∧
+        (sel N c).map some
+          = (sel (sel N (toSlice ((l1[i]?).getD (Idx.sl PSlice.all)))).length
+                (toSlice ((l2[i]?).getD (Idx.sl PSlice.all)))).map
+              (fun j => (sel N (toSlice ((l1[i]?).getD (Idx.sl PSlice.all))))[j]?) := by
+  refine ⟨combine_length l1 l2, ?_⟩
+  intro i N hi
+  refine ⟨_, by rw [combine_getElem?, if_pos hi], ?_⟩
+  have g : ∀ (l : List Idx), (∀ e ∈ l, NonNegSl (toSlice e)) →
+      NonNegSl (toSlice ((l[i]?).getD (Idx.sl PSlice.all))) := by
+    intro l hl
+    cases hg : l[i]? with
+    | none => exact nonNegSl_all
+    | some e => exact hl e (List.mem_of_getElem? hg)
+  exact combine1_sel N _ _ (g l1 h1) (g l2 h2)
+
+/-- **Clause 3 composed with clause 1.**  Take slices in the property's domain, each on its own axis, each with a
+    non-empty selection.  The text `hyperslab` prints for their normalisation parses back (on characters) to slices
+    that select, axis by axis, exactly what the ORIGINAL slices select. -/
+theorem C03_fix_hyperslab_roundtrip (ps : List (Nat × PSlice))
+    (hdom : ∀ p ∈ ps, entryDom p.1 (Idx.sl p.2) = true) (hne : ∀ p ∈ ps, sel p.1 p.2 ≠ []) :
+    ∃ l', parseHyperslab (hyperslabText (ps.map fun p => fixSl p.1 p.2)) = .ok l' ∧
+      l'.length = ps.length ∧
+      List.zipWith (fun p s' => sel p.1 s') ps l' = ps.map fun p => sel p.1 p.2 := by
+  refine ⟨ps.map fun p => fixSl p.1 p.2, ?_, by simp, ?_⟩
+  · apply parseHyperslab_hyperslabText
+    intro s hs
+    obtain ⟨p, hp, rfl⟩ := List.mem_map.mp hs
+    obtain ⟨a, b, c⟩ := entryDom_sl (hdom p hp)
+    exact normSl_fixSl p.1 p.2 a b c (hne p hp)
+  · clear hne
+    induction ps with
+    | nil => rfl
+    | cons p ps ih =>
+      obtain ⟨a, b, c⟩ := entryDom_sl (hdom p (by simp))
+      simp only [List.map_cons, List.zipWith_cons_cons, fix_preserves p.1 p.2 a b c]
+      rw [ih (fun q hq => hdom q (by simp [hq]))]
+
 /-! ### the tie by translation: the *source text* of the four functions computes the model
 
 `Pydap.Gen.src_…` are MiniPy syntax trees regenerated from `lib.py` / `parsers/__init__.py` on every run by
@@ -180,5 +261,17 @@ example : (sel 10 (combine1 ⟨some 0, some 10, some 2⟩ ⟨some 1, some 3, som
 example : (3 : Nat) ∈ sel 10 ⟨some 1, some 8, some 2⟩ := by decide
 example : NormSl ⟨some 2, some 7, some 2⟩ := ⟨2, 7, 2, rfl, by omega, by omega, by omega⟩
 example : fixSlice [Idx.ell, Idx.int (-1)] [3, 4] = [Idx.sl ⟨some 0, some 3, some 1⟩, Idx.int 3] := by decide
+-- the hypotheses of `C03_fix_tuple_preserves` hold for `x[..., -1]` and for `x[-2:9:2]` on shape (3, 4)
+example : tupleDom [3, 4] (npExpand [] (some [Idx.int (-1)]) 2) = true
+    ∧ List.zipWith entrySel [3, 4] (fixSlice [Idx.ell, Idx.int (-1)] [3, 4]) = [some [0, 1, 2], some [3]] := by decide
+example : tupleDom [3, 4] (npExpand [Idx.sl ⟨some (-2), some 9, some 2⟩] none 2) = true
+    ∧ List.zipWith entrySel [3, 4] (fixSlice [Idx.sl ⟨some (-2), some 9, some 2⟩] [3, 4]) = [some [1], some [0, 1, 2, 3]] := by
+  decide
+-- `C03_combine_tuple`: an integer, a strided slice and a missing entry against a longer second tuple
+example : NonNegSl (toSlice (Idx.int 2)) := ⟨by simp [toSlice], by simp [toSlice], by simp [toSlice]⟩
+example : (combine [Idx.int 2, Idx.sl ⟨some 1, some 9, some 2⟩] [Idx.int 0, Idx.sl ⟨some 1, some 3, some 1⟩, Idx.int 4]).map (sel 10)
+    = [[2], [3, 5], [4]] := by simp only [combine, List.map]; decide
+-- `C03_fix_hyperslab_roundtrip`: `x[-3::2]` on an axis of 10
+example : entryDom 10 (Idx.sl ⟨some (-3), none, some 2⟩) = true ∧ sel 10 ⟨some (-3), none, some 2⟩ ≠ [] := by decide
 
 end Pydap.C03
